@@ -136,6 +136,8 @@ Fixpoint parse_recipe (x : sexp) {struct x} : option recipe :=
       else if opis op "gogostatus" then do c <- get_N a; do m <- get_atom b; Some (RGogoStatus c m)
       else if opis op "wrap" then do r <- parse_recipe a; do s <- get_atom b; Some (RWrap r s)
       else if opis op "wrapf" then do r <- parse_recipe a; do f <- pfmt b; Some (RWrapf r f)
+      else if opis op "hintf" then do r <- parse_recipe a; do f <- pfmt b; Some (RHintf r f)
+      else if opis op "detailf" then do r <- parse_recipe a; do f <- pfmt b; Some (RDetailf r f)
       else if opis op "withmessage" then do r <- parse_recipe a; do s <- get_atom b; Some (RWithMessage r s)
       else if opis op "withmessagef" then do r <- parse_recipe a; do f <- pfmt b; Some (RWithMessagef r f)
       else if opis op "hint" then do r <- parse_recipe a; do s <- get_atom b; Some (RHint r s)
